@@ -24,7 +24,7 @@ def check(tier):
     harness = vlib.cargo_build("c13")
     pr = vlib.prove(PROP, [EXTRACT])
     driver = vlib.ocaml_build(PROP, use_zutil=False)
-    shards, per = (8, 500) if tier == "quick" else (16, 20000)
+    shards, per = (8, 500) if tier == "quick" else (16, 8000)
     with concurrent.futures.ThreadPoolExecutor(shards) as ex:
         files = list(ex.map(lambda k: run_shard(harness, k, per, sd), range(shards)))
     results = []
